@@ -788,3 +788,44 @@ Proof.
   intros Hok Hb Hd. destruct (codec_canonical t top b v rest Hok Hb Hd) as (e & _ & Hbe & _).
   exists e. split; [exact Hbe|]. rewrite Hbe, app_length. reflexivity.
 Qed.
+
+(* ---------- intsize / headsize: the number of length bytes is minimal, for every uint64 ---------- *)
+Lemma intsize_loop_spec : forall (k f : nat) i s, (1 <= k <= f)%nat ->
+  256 ^ N.of_nat (pred k) <= i \/ (k = 1%nat) -> i < 256 ^ N.of_nat k ->
+  intsize_loop f i s = s + N.of_nat (pred k).
+Proof.
+  induction k as [|k IH]; intros f i s Hk Hlo Hhi; [lia|].
+  destruct f as [|f]; [lia|]. cbn [intsize_loop pred].
+  destruct k as [|k].
+  - change (256 ^ N.of_nat 1) with 256 in Hhi. rewrite N.div_small by lia. cbn. lia.
+  - destruct Hlo as [Hlo|]; [|lia]. cbn [pred] in Hlo.
+    assert (E1 : 256 ^ N.of_nat (S k) = 256 * 256 ^ N.of_nat k) by (rewrite Nat2N.inj_succ, N.pow_succ_r'; reflexivity).
+    assert (E2 : 256 ^ N.of_nat (S (S k)) = 256 * 256 ^ N.of_nat (S k)) by (rewrite (Nat2N.inj_succ (S k)), N.pow_succ_r'; reflexivity).
+    assert (Hp : 0 < 256 ^ N.of_nat k) by (apply N.neq_0_lt_0, N.pow_nonzero; lia).
+    assert (Hd1 : 256 ^ N.of_nat k <= i / 256) by (apply N.div_le_lower_bound; lia).
+    assert (Hd2 : i / 256 < 256 ^ N.of_nat (S k)) by (apply N.div_lt_upper_bound; lia).
+    destruct (N.eqb_spec (i / 256) 0) as [Z|_]; [lia|].
+    rewrite (IH f (i / 256) (s + 1)); [cbn [pred]; lia | lia | left; exact Hd1 | exact Hd2].
+Qed.
+
+Theorem intsize_minimal n : 0 < n < 2 ^ 64 ->
+  intsize n = len (beb n) /\ 1 <= intsize n <= 8 /\ 256 ^ (intsize n - 1) <= n < 256 ^ intsize n.
+Proof.
+  intros [H0 H64]. set (k := length (beb n)).
+  assert (Hne : beb n <> []) by (apply beb_nonzero; lia).
+  assert (Hk8 : (k <= 8)%nat) by (apply beb_length; exact H64).
+  assert (Hk1 : (1 <= k)%nat) by (unfold k; destruct (beb n); [congruence | simpl; lia]).
+  pose proof (bev_lower (beb n) (beb_ok n) Hne (beb_hd n)) as Hlo. rewrite bev_beb in Hlo. fold k in Hlo.
+  pose proof (bev_bound (beb n) (beb_ok n)) as Hhi. rewrite bev_beb in Hhi. fold k in Hhi.
+  assert (E : intsize n = N.of_nat k).
+  { unfold intsize. rewrite (intsize_loop_spec k 8 n 1); [lia | lia | left; exact Hlo | exact Hhi]. }
+  rewrite E. unfold len. fold k. split; [reflexivity|]. split; [lia|].
+  replace (N.of_nat k - 1) with (N.of_nat (pred k)) by lia. split; assumption.
+Qed.
+
+(* headsize (what listEnd reserves and Stream.Raw skips) is the length of the header the encoder writes *)
+Theorem headsize_is_header_length base n : n < 2 ^ 64 -> len (head base n) = headsize n.
+Proof.
+  intro H. unfold head, headsize. destruct (N.ltb_spec n 56); [reflexivity|].
+  destruct (intsize_minimal n ltac:(lia)) as [E _]. rewrite E. unfold len. cbn [length]. lia.
+Qed.
